@@ -195,7 +195,9 @@ def run(ctx):
         return "\n".join(out) + "\n"
     structures = [("1HPX-protein", c04.protein_only(C.test_pdb_text("1HPX"))), ("3SGB-subset", C.test_pdb_text("3SGB-subset")),
                   ("1HPX-A-MSE46", with_mse(c04.protein_only("\n".join(C.chain_lines("1HPX", "A")) + "\nTER   \n"))),
-                  ("frag-3SGB-E0+40", C.fragment("3SGB", "E", 0, 40))]
+                  ("frag-3SGB-E0+40", C.fragment("3SGB", "E", 0, 40)),
+                  # a chain whose first residue shares its number with the insertion-coded residues that follow it
+                  ("frag-3SGB-E-from-48", C.join(C.chain_lines("3SGB", "E", 19, 16) + [C.TER]))]
     if ctx.thorough():
         structures += [("3SGB", C.test_pdb_text("3SGB")), ("1FTJ-protein", c04.protein_only(C.test_pdb_text("1FTJ-Chain-A"))),
                        ("4DFR", C.test_pdb_text("4DFR"))]
